@@ -206,6 +206,18 @@ def handle (op : String) (j : Json) : Except String Json := do
       (if (fieldD impl "ok" Json.null).compress == spec.compress then [] else ["impl≠collect"]) ++
       (match r with | .ok f => if (fcJ f).compress == spec.compress then [] else ["model≠collect"] | _ => ["model-error"])
     pure (Json.mkObj [("model", resultJ r), ("failed", clauses failed)])
+  | "c05.skip" =>
+    -- a document with inserted elements of unknown classes (any payload) against the same document without them:
+    -- impl = {"with": result, "without": result}
+    let a := Parser.parse (jvalOfJson (← field j "ast"))
+    let b := Parser.parse (jvalOfJson (← field j "without"))
+    let model := Json.mkObj [("with", resultJ a), ("without", resultJ b)]
+    let failed := if impl.isNull then [] else
+      let w := fieldD impl "with" Json.null
+      let wo := fieldD impl "without" Json.null
+      (if implTag wo != "ok" then [] else
+       if w.compress == wo.compress then [] else ["unknown-element-affected-its-siblings"])
+    pure (Json.mkObj [("model", model), ("failed", clauses failed)])
   | "c16" =>
     let docs := (← arrField j "docs").map jvalOfJson
     let ops ← arrField j "ops"
